@@ -81,14 +81,14 @@ func init() {
 	}
 	nop := extNop
 	for k, v := range map[string]externalFn{
-		"(*sync.Mutex).Lock":      nop,
-		"(*sync.Mutex).Unlock":    nop,
-		"(*sync.Mutex).TryLock":   func(fr *frame, a []value) value { return true },
-		"(*sync.RWMutex).Lock":    nop,
-		"(*sync.RWMutex).Unlock":  nop,
-		"(*sync.RWMutex).RLock":   nop,
-		"(*sync.RWMutex).RUnlock": nop,
-		"(*sync.RWMutex).TryLock": func(fr *frame, a []value) value { return true },
+		"(*sync.Mutex).Lock":       nop,
+		"(*sync.Mutex).Unlock":     nop,
+		"(*sync.Mutex).TryLock":    func(fr *frame, a []value) value { return true },
+		"(*sync.RWMutex).Lock":     nop,
+		"(*sync.RWMutex).Unlock":   nop,
+		"(*sync.RWMutex).RLock":    nop,
+		"(*sync.RWMutex).RUnlock":  nop,
+		"(*sync.RWMutex).TryLock":  func(fr *frame, a []value) value { return true },
 		"(*sync.RWMutex).TryRLock": func(fr *frame, a []value) value { return true },
 		"(*sync.Once).Do": func(fr *frame, a []value) value {
 			p := cellOf(a[0])
@@ -106,8 +106,16 @@ func init() {
 			}
 			return nil
 		},
-		"(*sync.Cond).Broadcast": func(fr *frame, a []value) value { fr.i.nativeState["cond.broadcast"] = true; fr.i.condSignals++; return nil },
-		"(*sync.Cond).Signal":    func(fr *frame, a []value) value { fr.i.nativeState["cond.broadcast"] = true; fr.i.condSignals++; return nil },
+		"(*sync.Cond).Broadcast": func(fr *frame, a []value) value {
+			fr.i.nativeState["cond.broadcast"] = true
+			fr.i.condSignals++
+			return nil
+		},
+		"(*sync.Cond).Signal": func(fr *frame, a []value) value {
+			fr.i.nativeState["cond.broadcast"] = true
+			fr.i.condSignals++
+			return nil
+		},
 		"(*sync.Cond).Wait": func(fr *frame, a []value) value {
 			if fr.i.runOneGoroutine() {
 				return nil
